@@ -195,17 +195,16 @@ def fail_text(rec):
 # repaired in /repo: if one of them comes back it is a VIOLATION (no classifier below returns these ids any more; the guard also
 # covers the shared classifier).  f705aba LIMIT with a bare OFFSET on sqlite; 148aed7 never emit `--`; d92afac table references
 # resolve relative to the enclosing modules; 6d6f07a append does not count a wildcard as one column; 8d54bf7 an aggregate ends
-# the sort in effect
+# the sort in effect; 21fe768 the sort keys of a take are not selected into a SELECT DISTINCT (F72, itself a regression of 456bdcd)
 REPAIRED = {"F27-offset-without-limit", "F03-double-minus", "F60-module-sibling-ref", "F63-append-arity-wildcard",
-            "F65-sort-survives-aggregate"}
+            "F65-sort-survives-aggregate", "F72-distinct-includes-carried-sort-key"}
 
 
 # C06 ids that record, for pairs produced by a rewrite, a defect that relational.json has under a shared id
 SAME_DEFECT = {"F62-let-loses-window-order": "F35-let-boundary-hides-order-from-window",
                "F64-let-column-alias-lost": "F36-let-table-star-loses-derived-name",
                "F68-let-sort-key-recomputed": "F39-let-sort-key-expression-reinlined",
-               "F69-sort-alias-not-carried": "F24-dangling-generated-alias",
-               "F72-distinct-includes-carried-sort-key": "F19-take-then-distinct"}
+               "F69-sort-alias-not-carried": "F24-dangling-generated-alias"}
 
 
 def classify_side(rec):
@@ -236,9 +235,19 @@ _AGG_SELECT_ORDERED = re.compile(r"\(SELECT ((?:[^()]|\((?:[^()]|\([^()]*\))*\))
 def classify_first(rec):
     """narrow classes that the shared classifier would file under a broader id"""
     if rec["tag"] == "rows" and rec["verdict"] == "rows":
-        # F72 (regression of 456bdcd; relational.json keeps it inside F19): the take's sort key sits in the SELECT DISTINCT list
+        # (F72, the 456bdcd regression, is repaired by 21fe768: a sort key in a SELECT DISTINCT list is unexplained again)
         if re.search(r"\btake\b", rec["prql"]) and re.search(r"\bsort\b", rec["prql"]) and distinct_widened(rec["prql"], rec.get("sql") or ""):
-            return "F72-distinct-includes-carried-sort-key"
+            return "F72-distinct-includes-carried-sort-key"      # in REPAIRED: classify_side turns it into None
+        return None
+    if rec["tag"] == "panic":
+        # F74 (regression of 21fe768 = the F29 panic re-opened for one shape): `sort | take | distinct | more` -- the take no longer
+        # requires its sort keys when a distinct follows, but with another transform behind the distinct the sub-query's ORDER BY
+        # still names them
+        txt = fail_text(rec)
+        if "name of this column has not been to be set before generating SQL" in txt and "sql/gen_expr.rs" in txt:
+            m = re.search(r"\bsort\b.*?\btake\b.*?group \{[^{}]*\} \(take 1\)(.*)", rec["prql"], re.S)
+            if m and re.search(r"\b(filter|derive|select|sort|take|group|aggregate|window|join|append)\b", m.group(1)):
+                return "F74-take-distinct-then-more-panics"
         return None
     if rec["tag"] != "sql-err":
         return None
